@@ -39,6 +39,9 @@ CHECKS = {
  "C20": dict(tech="TLA+ index model Bounds.tla (design constants satisfy InBounds; historical slicing conventions must violate it) + every scenario executed twice in fresh processes, with numba's bounds checker and without; RelTrace facts no_index_error, same_result",
              text="Index expressions of kernels are model-checked on lengths; real compositions (TLC-generated scenarios + sentinels from the model's counterexamples) run under NUMBA_BOUNDSCHECK=1 and unchecked, and TLC judges the pair.", ref="6 C20",
              note="Trusted: numba's own bounds checker; process isolation. Compositions with randomly started power-method constants are compared for errors only."),
+ "C10": dict(tech="TLA+ representation model Storage.tla (TLC enumerates entry point x composition x container x dtype exhaustively, with the outcome the documentation promises) replayed on the real code against the dense-Fortran-float64 run; RelTrace facts same, not_refused, refuse_explained",
+             text="The full finite product of representations and entry points is enumerated by TLC; each is executed and TLC judges equality with the canonical run (tolerance-based, float32 relaxed) or the explanatory refusal.", ref="6 C10",
+             note="Trusted: the dense-F-float64 run as reference (covered by C01), the keyword rule for 'names the representation'. Quick tier: stratified sample of the enumerated product; thorough: all of it."),
 }
 NA = []
 checks = []
